@@ -188,7 +188,7 @@ def main(chk, replay_file):
                  J("%s_processor_v.canary" % name, unit, "h_" + name, unwind=4, defines=["CANARY"], kind="canary", checks=[]),
                  J("%s_processor_v.cover" % name, unit, "h_" + name, unwind=4, defines=["COVER"], kind="cover", cover=True, checks=[])]
         if tier == "thorough":
-            jobs.append(J("%s_processor_v.equiv@cvc5" % name, unit, "h_" + name, unwind=4, solver=["--cvc5"], timeout=3000, note="second back end"))
+            jobs.append(J("%s_processor_v.equiv@kissat" % name, unit, "h_" + name, unwind=4, solver=["--external-sat-solver", "kissat"], stop_on_fail=True, timeout=3000, note="second back end: kissat (CBMC's SMT2 conversion aborts with map::at on the Verilator units, so cvc5/z3 are unusable here)"))
     chk.jobs = jobs
     hv.run_jobs(jobs, chk.out)
     exe = native(chk)
